@@ -37,6 +37,11 @@ from tqv import gen, ref
 from tqv.core import Inconclusive, SubCheck, Violation, req, unlisted_rejection
 from tqv.props import _c20_helpers as H
 
+# caller-owned arrays handed to the library must come back unchanged (see tqv/purity.py)
+from tqv.purity import install as _install_purity  # noqa: E402
+
+_install_purity('toqito.channel_metrics')
+
 PROPERTY = "C20"
 RULE = (
     "Cases are drawn by Hypothesis: local dimension d in {2,3} (2..4 for the closed-form shortcuts, 2..5 enumerated for "
